@@ -739,6 +739,15 @@ def _gen(seed, tier, opts):
                 if k_ in base:
                     spec[k_] = base[k_]
             r_ = rng.random()
+            if rng.random() < 0.35 and base["zoo"] not in ("Z14", "Z5", "Z7", "Z10"):
+                # ... or the same configuration on another mesh size (a coarse-then-refined study): the same surface
+                # names and classes with other array shapes - what state keyed by name alone gets confused by
+                spec = dict(base)
+                spec.pop("mode", None)
+                spec["ny"] = 7 if base.get("ny", 5) == 5 else 5
+                if rng.random() < 0.5:
+                    spec["nx"] = 3 if base.get("nx", 2) == 2 else 2
+                r_ = 1.0
             if r_ < 0.5 and base["zoo"] in ("Z1", "Z2", "Z3", "Z4", "Z6", "Z8", "Z9", "Z11", "Z12", "Z15"):
                 others = [m_ for m_ in zoo.MESH_OPT_CHOICES if m_ != base.get("mesh_opts")]
                 spec["mesh_opts"] = dict(rng.choice(others))
@@ -762,7 +771,9 @@ def _gen(seed, tier, opts):
             spec["mesh_opts"] = dict(rng.choice(zoo.MESH_OPT_CHOICES))
         if "surf_opts" not in spec and spec["zoo"] in ("Z1", "Z2", "Z3", "Z4", "Z8", "Z9", "Z10", "Z11", "Z12", "Z13", "Z15") and rng.random() < 0.3:
             spec["surf_opts"] = dict(rng.choice(zoo.SURF_OPT_CHOICES))
-        model = zoo.build(spec)
+        # what the generator needs to know about the tenant (inputs, component paths) is read from a model built in a
+        # pristine child of its own: the generator must not be the first place where several Problems share a process
+        model = core.in_child(_probe_spec, spec)
         npts = rng.randint(1, 3)
         points = []
         for _ in range(npts):
@@ -796,7 +807,7 @@ def _gen(seed, tier, opts):
                     ops.append({"op": "abort", "frac": round(rng.uniform(0.05, 0.95), 3)})
                 ops.append({"op": "run"})
             else:
-                comp_paths = [c.pathname for c in obs.components(model.prob) if obs.is_oas(c)]
+                comp_paths = list(model.comp_paths)
                 inc = sorted(rng.sample(comp_paths, min(len(comp_paths), 2))) if comp_paths else None
                 ops.append({"op": "check_partials", "includes": inc})
         if rng.random() < 0.5:
@@ -856,6 +867,24 @@ def generate(seed, tier, opts):
 # ------------------------------------------------------------------------------------------------
 # execution
 # ------------------------------------------------------------------------------------------------
+
+
+class _Probe:
+    """Picklable summary of a built model for the generator."""
+
+    def __init__(self, inputs, notes, comp_paths):
+        self.inputs, self.notes, self.comp_paths = inputs, notes, comp_paths
+
+    def inp(self, name):
+        for i in self.inputs:
+            if i.name == name:
+                return i
+        raise KeyError(name)
+
+
+def _probe_spec(spec):
+    m = zoo.build(spec)
+    return _Probe(list(m.inputs), {k: True for k in m.notes}, [c.pathname for c in obs.components(m.prob) if obs.is_oas(c)])
 
 
 class Tenant:
@@ -1231,7 +1260,9 @@ def _rerun_in_fresh_interpreter(case):
 def _global_state():
     """Process-wide numerical settings that library code has no business changing behind the user's back."""
     po = np.get_printoptions()
-    return {"np.geterr": json.dumps(np.geterr(), sort_keys=True), "np.printoptions": json.dumps({k: repr(v) for k, v in po.items()}, sort_keys=True)}
+    return {"np.geterr": json.dumps(np.geterr(), sort_keys=True), "np.printoptions": json.dumps({k: repr(v) for k, v in po.items()}, sort_keys=True),
+            # the working directory decides what every relative path of every other Problem in the process means
+            "os.getcwd": os.getcwd()}
 
 
 def exec_program(case_file, out_file):
